@@ -216,6 +216,51 @@ def check(chk: Check) -> None:
         for key, (ok, det, line) in sorted(seen.items()):
             chk.require(ok, R4, key, '%s:%d' % (fi2.module.rel, line), det)
 
+    # --------------------------------------------------------------------- R5
+    R5 = chk.rule('C18.R5', 'the host mapping is consulted through the scope stack only: SqParser.eval hands its names argument to the scope '
+                            'stack as it is and does nothing else with it - a copy, an iteration or a conversion (dict(names), list(names), '
+                            '{**names}) asks the host for every key it has, listed or not', floor=1)
+    chk.decided += ['no access to the host mapping beside the keyed lookups of R4 (R5)']
+    qe = 'smartquery.sq_parser.SqParser.eval'
+    fie = F.func(qe)
+    host_params = [a.arg for a in fie.node.args.args[1:] + fie.node.args.kwonlyargs if a.arg == 'names'] or \
+                  [a.arg for a in fie.node.args.args[2:3]]
+    if not host_params:
+        raise AnalysisError('anchor vanished: SqParser.eval has no names parameter')
+    hp = ('param', host_params[0])
+    problems5 = []
+    n5 = 0
+    for p in SymExec(F, fie).run():
+        for e in p.events:
+            if e.kind == 'call':
+                f = freeze(e.func)
+                args_ = tuple(freeze(e.args)) + tuple(v for _, v in freeze(e.kwargs))
+                is_push = isinstance(f, tuple) and f[:1] == ('attr',) and f[2] in ('push_scope', 'make_scope')
+                direct = hp in args_ or any(isinstance(a_, tuple) and a_[:1] in (('star',), ('dstar',)) and a_[1] == hp for a_ in args_) \
+                    or (isinstance(f, tuple) and f[:1] == ('attr',) and f[1] == hp)
+                if is_push and not direct and om.mentions(args_[:1], hp):
+                    direct = True           # push_scope({**names}) / push_scope(dict(names)): a copy, not the mapping
+                    args_ = ()
+                if not direct:
+                    continue
+                n5 += 1
+                if e.d.get('inlined'):
+                    continue            # a helper of the package: what it does with the mapping shows in its own events
+                name_ = f[2] if isinstance(f, tuple) and f[:1] in (('attr',), ('ref',)) and len(f) > 2 else None
+                handed_on = hp in args_ and ((isinstance(f, tuple) and f[:1] == ('attr',) and f[2] in (
+                    'push_scope', 'make_scope', 'append', 'appendleft', 'insert', 'new_child'))        # kept by reference
+                                             or (isinstance(f, tuple) and f[:2] == ('ref', 'ext') and f[2] in ('collections.ChainMap', 'types.MappingProxyType'))
+                                             or e.d.get('ctor') or (isinstance(f, tuple) and f[:2] == ('ref', 'builtin') and f[2] in ('isinstance', 'type', 'id', 'callable')))
+                if handed_on:
+                    continue
+                problems5.append('`%s` (line %d) reads the host mapping as a whole: every key it holds is asked for, whether the program '
+                                 'mentions it or not' % (e.text(), e.line))
+            elif e.kind in ('load_sub', 'loop_test', 'loop_skip') and om.mentions(freeze(e.d.get('obj', e.d.get('iter'))), hp):
+                n5 += 1
+                problems5.append('`%s` (line %d) accesses the host mapping outside the scope stack' % (e.text()[:80], e.line))
+    chk.require(not problems5 and n5, R5, qe + ' :: ' + host_params[0], fie.where, '; '.join(sorted(set(problems5))[:2]) or
+                'handed to the scope stack as it is (%d use(s))' % n5)
+
     # --------------------------------------------------------------------- R3
     tab = functab.table(F)
     implicit_allowed = {'list', 'dict'} | {k for k in tab if k.startswith('__') and k.endswith('__')}
